@@ -88,7 +88,7 @@ Proof.
   intros Hc Hn. destruct c as [|a r]; [exfalso; destruct (okc_inv _ Hc) as [E _]; discriminate|].
   exists a, r. split; [reflexivity|]. unfold noslash in Hn. cbn in Hn. apply orb_false_elim in Hn. tauto.
 Qed.
-Lemma fix_stream_name_path P l' tl : comps P = "."%string :: l' ++ tl -> Forall okc l' -> tl = [] \/ tl = ["."%string] ->
+Lemma fix_stream_name_path P l' tl : comps P = "."%string :: l' ++ tl -> Forall okc l' -> tl = [] \/ tl = ["."%string] \/ tl = [""%string] ->
   fix_stream_name P = path_string l'.
 Proof.
   intros Hc Hl Htl.
@@ -99,8 +99,9 @@ Proof.
   { fold (comps P). rewrite Hc. cbn [fold_left]. unfold clean_step at 2. cbn [String.eqb Ascii.eqb Bool.eqb orb].
     change (("." =? "") || ("." =? "."))%string with true. cbn iota.
     rewrite fold_left_app. rewrite (clean_fold_okc l' [] Hl). rewrite app_nil_r.
-    destruct Htl as [->| ->]; [reflexivity|]. cbn [fold_left]. unfold clean_step.
-    change (("." =? "") || ("." =? "."))%string with true. reflexivity. }
+    destruct Htl as [->|[->| ->]]; [reflexivity| |]; cbn [fold_left]; unfold clean_step.
+    - change (("." =? "") || ("." =? "."))%string with true. reflexivity.
+    - change (("" =? "") || ("" =? "."))%string with true. reflexivity. }
   assert (Hclean : path_clean P = match l' with [] => "."%string | _ => join "/" l' end).
   { unfold path_clean. destruct P as [|a P'] eqn:EP.
     - exfalso. cbn in Hc. discriminate.
@@ -544,20 +545,36 @@ Proof.
 Qed.
 
 (* Manifest.segment on a valid text: the map (stream name, file name) -> segments is the reference denotation *)
-Theorem gm_segment_text_agrees : forall txt m,
+Theorem gm_segment_text_full : forall txt m,
   valid_manifest txt = true -> parse_manifest txt = Some m -> small_manifest m = true ->
-  exists sm, gm_segment txt = Ok sm /\
-    forall a b, get2 sm a b =
-      if nsl b && mem_str (key_path a b) (all_paths m) then Some (denote m (key_path a b)) else None.
+  exists sm, gm_segment txt = Ok sm /\ (forall a b, get2 sm a b = sval (entries m) a b) /\ sm_ne sm.
 Proof.
   intros txt m Hv Hp Hsm. destruct (valid_manifest_inv _ Hv) as (ls & m' & Hls & Hmo & Hp' & Hvl & Hnc).
   rewrite Hp in Hp'. injection Hp' as <-. apply small_manifest_spec in Hsm.
   pose proof (valid_lines_ok _ _ Hvl Hmo) as Hok.
   unfold gm_segment. rewrite (gm_lines_valid _ _ _ Hls Hok).
   destruct (segment_lines_ok (entries m) (entries_shape _ _ Hok) (no_conflict_free _ Hnc) ls m Hok Hsm (incl_refl _) [] [])
-    as (sm & Hseg & Hget & _).
+    as (sm & Hseg & Hget & Hne).
   { intros a b. unfold get2, sval. cbn. rewrite andb_false_r. reflexivity. }
   { intros a sf H. discriminate. }
-  exists sm. split; [exact Hseg|]. intros a b. rewrite Hget. unfold sval. cbn [app].
+  exists sm. split; [exact Hseg|]. split; [|exact Hne]. intros a b. rewrite Hget. reflexivity.
+Qed.
+Theorem gm_segment_text_agrees : forall txt m,
+  valid_manifest txt = true -> parse_manifest txt = Some m -> small_manifest m = true ->
+  exists sm, gm_segment txt = Ok sm /\
+    forall a b, get2 sm a b =
+      if nsl b && mem_str (key_path a b) (all_paths m) then Some (denote m (key_path a b)) else None.
+Proof.
+  intros txt m Hv Hp Hsm. destruct (gm_segment_text_full txt m Hv Hp Hsm) as (sm & Hseg & Hget & _).
+  exists sm. split; [exact Hseg|]. intros a b. rewrite Hget. unfold sval.
   rewrite all_paths_entries, denote_entries. reflexivity.
+Qed.
+
+(* the shape facts of a valid manifest, for later use *)
+Lemma valid_manifest_shape txt m : valid_manifest txt = true -> parse_manifest txt = Some m ->
+  Forall entry_shape (entries m) /\ conflict_free (entries m) /\ exists ls, lines_ok ls m.
+Proof.
+  intros Hv Hp. destruct (valid_manifest_inv _ Hv) as (ls & m' & Hls & Hmo & Hp' & Hvl & Hnc).
+  rewrite Hp in Hp'. injection Hp' as <-. pose proof (valid_lines_ok _ _ Hvl Hmo) as Hok.
+  split; [eapply entries_shape; eauto|]. split; [apply no_conflict_free; exact Hnc|]. exists ls. exact Hok.
 Qed.
